@@ -71,10 +71,8 @@ extern int mpt_vprintf(MPT_STRUCT(array) *arr, const char *format, va_list args)
 		buf->_used = used;
 		return MPT_ERROR(BadValue);
 	}
-	if (rval >= 0 && (size_t) rval <= len) {
-		if ((size_t) rval < len) {
-			base[rval] = '\0';
-		}
+	/* output and termination fit into reserved space */
+	if ((size_t) rval < len) {
 		buf->_used = used + rval;
 		return rval;
 	}
